@@ -607,10 +607,18 @@ def type_ok_for_write(b, v):
     return True
 
 
+REF_ENTITIES = [("&lt;", "<"), ("&gt;", ">"), ("&nbsp;", " "), ("&apos;", "'"), ("&quot;", '"'), ("&amp;", "&")]
+
+
+def ref_unescape(s):
+    """what an escaped text denotes (OFX section 2.3.2.1 + the three extra entities the library documents), '&amp;' last"""
+    for k, v in REF_ENTITIES:
+        s = s.replace(k, v)
+    return s
+
+
 def entity_free(T, s):
-    from xml.sax import saxutils
-    ents = dict(_state.get("gen", {}).get("entities", [("&nbsp;", " "), ("&apos;", "'"), ("&quot;", '"')]))
-    return saxutils.unescape(s, ents) == s
+    return ref_unescape(s) == s
 
 
 def predicate(T, done, convs, fails):
@@ -621,14 +629,14 @@ def predicate(T, done, convs, fails):
     # --- String.convert un-escapes exactly what the serializers escape (theorem unescape_escape), for every string value
     from xml.sax import saxutils
     import xml.etree.ElementTree as ET
-    plain = T.String()
     for (e, op, v, out) in done:
-        if isinstance(v, str) and v != "" and base_elem(e)["type"] == "String" and op == "unconvert":
+        if isinstance(v, str) and v != "" and base_elem(e)["type"] == "String" and op == "unconvert" and out[0] == "ok" and isinstance(out[1], str):
+            conv = convs[case_key(e, op, v)[0]]
             for esc_name, esc in (("saxutils.escape", saxutils.escape), ("ET._escape_cdata", ET._escape_cdata)):
-                back = call(T, plain, "convert", esc(v))
-                if back[0] != "ok" or back[1] != v:
-                    fail("String.convert:unescape-not-inverse-of-escape", "String().convert(%s(%r)) -> %r" % (esc_name, v, back), {"type": "String"}, "convert", esc(v), observed=jout(back), expected=v)
-
+                back = call(T, conv, "convert", esc(v))
+                if back[0] != "ok" or back[1] != v or back[2] != out[2]:
+                    fail("String.convert:unescape-not-inverse-of-escape", "%s: %r is written (%d warning), escaped on the wire as %r, and read back as %r"
+                         % (json.dumps(base_elem(e)), v, out[2], esc(v), back), e, "convert", esc(v), observed=jout(back), expected=v)
     for (e, op, v, out) in done:
         b = base_elem(e)
         t, req = b["type"], b.get("required", False)
@@ -705,13 +713,16 @@ def predicate(T, done, convs, fails):
                     bad = True
                     if low in ("inf", "infinity") or re.match(r"^s?nan\d*$", low):
                         bad = "nonfinite"
-            if t == "String" and b.get("length") is not None and s != "" and entity_free(T, s):
-                over = len(s) > b["length"]
-                if b.get("strict", True):
-                    if (out[0] == "ok") == over:
-                        fail("String.convert:length-limit", "%s.convert(len %d) -> %r" % (desc, len(s), out[0]), e, op, v, observed=jout(out))
-                elif out[0] != "ok" or out[1] != s or out[2] != (1 if over else 0):
-                    fail("NagString.convert:warn-and-keep", "%s.convert(len %d) -> %r" % (desc, len(s), out), e, op, v, observed=jout(out))
+            if t == "String" and s != "":
+                u = ref_unescape(s)                       # the value the text denotes
+                if u != "":
+                    over = b.get("length") is not None and len(u) > b["length"]
+                    strict = b.get("strict", True)
+                    want = ("reject",) if (over and strict) else ("ok", u, 1 if over else 0)
+                    got = (out[0],) if out[0] != "ok" else out
+                    if (want[0] == "ok") != (got[0] == "ok") or (want[0] == "ok" and want != got):
+                        key = ("%s.convert:length-limit" % nm) if strict else "NagString.convert:warn-and-keep"
+                        fail(key, "%s.convert(%r) -> %r: the text denotes %r (%d characters), expected %r" % (desc, s, out, u, len(u), want), e, op, v, observed=jout(out))
             if bad and out[0] == "ok":
                 key = "Decimal.convert:non-finite-text-accepted" if bad == "nonfinite" else "%s.convert:bad-text-accepted" % nm
                 fail(key, "%s.convert(%r) -> %r: the text does not denote a value of the type" % (desc, s, out[1]), e, op, v, observed=jout(out))
@@ -766,10 +777,104 @@ def predicate(T, done, convs, fails):
                 fail(key, "%s.convert(%r) -> %r: %d digits allowed" % (desc, v, out, b["length"]), e, op, v, observed=jout(out))
 
 
+def datetime_clauses(T, rng, rep, fails, n):
+    """C10's clauses for DateTime / Time on the implementation (the model and the theorems for these two types are the C09 engine's:
+    dt_roundtrip_half_ms, tm_roundtrip_half_ms, dt_unconvert_shape, dt_convert_denotes, dt_naive_refused)."""
+    DAY = 86400 * 10 ** 6
+    EPOCH = datetime.datetime(1, 1, 1, tzinfo=datetime.timezone.utc)
+    us = lambda td: (td.days * 86400 + td.seconds) * 10 ** 6 + td.microseconds
+
+    def inst(v):                    # microseconds since 0001-01-01T00:00 UTC
+        return us(v - EPOCH)
+
+    def tod(t):                     # UTC time of day in microseconds
+        return ((t.hour * 3600 + t.minute * 60 + t.second) * 10 ** 6 + t.microsecond - us(t.utcoffset())) % DAY
+
+    def fail(key, what, **kw):
+        fails.append(C.Failure(key, what, dict(kind="datetime", **kw)))
+
+    def chain(nm, conv, v, measure, modulo):
+        w = call(T, conv, "unconvert", v)
+        rep.count((nm, repr(v)), nontrivial=(w[0] == "ok"), kind="%s.unconvert:%s" % (nm, w[0]))
+        if w[0] != "ok" or not isinstance(w[1], str):
+            fail("%s.unconvert:domain-value-refused" % nm, "%s.unconvert(%r) -> %r" % (nm, v, w), type=nm, value=repr(v))
+            return
+        r1 = call(T, conv, "convert", w[1])
+        d = None
+        if r1[0] == "ok" and r1[1] is not None:
+            d = abs(measure(r1[1]) - measure(v))
+            if modulo:
+                d = min(d, DAY - d)
+        if d is None or d > 500:
+            fail("%s:write-read-roundtrip" % nm, "%s: %r (utcoffset %s) written as %r reads back as %r" % (nm, v, v.utcoffset(), w[1], r1), type=nm, value=repr(v), text=w[1])
+            return
+        c = call(T, conv, "unconvert", r1[1])
+        r2 = call(T, conv, "convert", c[1]) if c[0] == "ok" else ("none",)
+        if r2[0] != "ok" or r2[1] != r1[1]:
+            fail("%s:canonical-text-reads-differently" % nm, "%s: %r reads %r, written %r, read again %r" % (nm, w[1], r1[1], c, r2), type=nm, text=w[1])
+            return
+        c2 = call(T, conv, "unconvert", r2[1])
+        if c2[0] != "ok" or c2[1] != c[1]:
+            fail("%s:canonical-text-not-fixed-point" % nm, "%s: canonical %r rewritten as %r" % (nm, c[1], c2), type=nm, text=c[1])
+
+    dtc, tmc = T.DateTime(), T.Time()
+    for _ in range(n):
+        off = rng.choice([0, 60, -60, 330, -210, 345, 840, -720, -15, -30, -45, -1, -59, 15, 30, 45, rng.randrange(-1439, 1440)])
+        name = rng.choice([None, None, "UTC", "EST", "CET"])
+        tz = datetime.timezone(datetime.timedelta(minutes=off), name) if name else datetime.timezone(datetime.timedelta(minutes=off))
+        usec = rng.choice([0, 499, 500, 501, 999499, 999500, 999999, rng.randrange(10 ** 6)])
+        y = rng.choice([1000, 1900, 1999, 2000, 2024, 2200, 9998, rng.randrange(1000, 9999)])
+        hh, mi, ss = rng.choice([(0, 0, 0), (23, 59, 59), (rng.randrange(24), rng.randrange(60), rng.randrange(60))])
+        v = datetime.datetime(y, rng.randrange(1, 13), rng.randrange(1, 29), hh, mi, ss, usec, tzinfo=tz)
+        chain("DateTime", dtc, v, inst, False)
+        chain("Time", tmc, v.timetz(), tod, True)
+    # texts in the other accepted notations: read, written canonically, read again
+    for _ in range(n // 2):
+        y, mo, dd = rng.randrange(1000, 9999), rng.randrange(1, 13), rng.randrange(1, 29)
+        hh, mi, ss, ms = rng.randrange(24), rng.randrange(60), rng.randrange(60), rng.randrange(1000)
+        offh = rng.randrange(-12, 15)
+        tail = rng.choice(["", ".%03d" % ms, ".%03d[%d]" % (ms, offh), ".%03d[%+d:XYZ]" % (ms, offh), "[%d]" % offh, ".%03d[%+d.30]" % (ms, offh), ".%03d[-0.30:X]" % ms])
+        for nm, conv, text in (("DateTime", dtc, "%04d%02d%02d%s" % (y, mo, dd, rng.choice(["", "%02d%02d%02d%s" % (hh, mi, ss, tail)]))),
+                               ("Time", tmc, "%02d%02d%02d%s" % (hh, mi, ss, tail))):
+            r1 = call(T, conv, "convert", text)
+            rep.count((nm, text), nontrivial=(r1[0] == "ok"), kind="%s.convert:%s" % (nm, r1[0]))
+            if r1[0] != "ok":
+                fail("%s.convert:good-text-refused" % nm, "%s.convert(%r) -> %r" % (nm, text, r1), type=nm, text=text)
+                continue
+            c = call(T, conv, "unconvert", r1[1])
+            r2 = call(T, conv, "convert", c[1]) if c[0] == "ok" else ("none",)
+            if r2[0] != "ok" or r2[1] != r1[1]:
+                fail("%s:canonical-text-reads-differently" % nm, "%s: %r reads %r, written %r, read again %r" % (nm, text, r1[1], c, r2), type=nm, text=text)
+    # None, wrong types on write, bad texts on read
+    naive = datetime.datetime(2020, 1, 1, 12, 0, 0)
+    for nm, cls in (("DateTime", T.DateTime), ("Time", T.Time)):
+        for req in (False, True):
+            conv = cls(required=req)
+            for op in ("convert", "unconvert"):
+                o = call(T, conv, op, None)
+                rep.count((nm, op, None, req), nontrivial=False, kind="%s.%s:None" % (nm, op))
+                if (o[0] != "ok") != req or (o[0] == "ok" and o[1] is not None):
+                    fail("%s.%s:None-passthrough" % (nm, op), "%s(required=%r).%s(None) -> %r" % (nm, req, op, o), type=nm)
+            for wv in ("20200101", 20200101, True, D("1"), naive if nm == "DateTime" else naive.time(), naive.date(), Other("list")):
+                o = call(T, conv, "unconvert", wv)
+                rep.count((nm, "unconvert", repr(wv), req), nontrivial=False, kind="%s.unconvert:wrong-type" % nm)
+                if o[0] == "ok":
+                    fail("%s.unconvert:wrong-type-accepted" % nm, "%s.unconvert(%r) -> %r" % (nm, wv, o[1]), type=nm, value=repr(wv))
+            bads = ["x", "2020", "2020010", "20201301", "20200132", "20200100", "20200230", "20200101250000", "20200101126000", "20200101120061", "2020010112000a",
+                    "20200101120000.12", "20200101120000.123[", "20200101120000.123[5", "abcdefgh", "Y", "12.5"] if nm == "DateTime" else \
+                   ["x", "12", "1200", "250000", "126000", "120061", "12000a", "120000.12", "120000.123[", "20200101120000", "Y"]
+            for bt in bads:
+                o = call(T, conv, "convert", bt)
+                rep.count((nm, "convert", bt, req), nontrivial=False, kind="%s.convert:bad-text" % nm)
+                if o[0] == "ok":
+                    fail("%s.convert:bad-text-accepted" % nm, "%s.convert(%r) -> %r" % (nm, bt, o[1]), type=nm, text=bt)
+
+
 RULE = ("corpus first; structured stream: every type x parameterisation (lengths None/1..40, scales None/0..8, both required flags, token sets of the live model classes, "
         "ListElement nesting) x boundary-biased values (length n-1/n/n+1, +-(10^n-1)/+-10^n, halves at the quantum, 28/29-digit coefficients, signed zeros, specials) and "
         "their texts in every accepted notation; malformed stream: single-character corruptions, separators, blanks, underscores, Unicode digits, huge exponents; "
-        "wrong-type stream: every pyval constructor x every type, both directions. non-trivial = the implementation returned a value other than None; distinct by (element, operation, value)")
+        "wrong-type stream: every pyval constructor x every type, both directions; DateTime/Time (implementation and oracle only, model = C09 engine): aware values "
+        "over all whole-minute offsets incl. -0:mm, rounding edges, five notations, None, wrong types, malformed texts. non-trivial = the implementation returned a value other than None; distinct by (element, operation, value)")
 
 
 def run(rep, tier, rng):
@@ -783,6 +888,7 @@ def run(rep, tier, rng):
     oracle_error = None
     try:
         predicate(T, done, convs, rep.failures)
+        datetime_clauses(T, rng, rep, rep.failures, 3000 if thorough else 400)
     except Exception as ex:          # an oracle problem must not hide the correspondence result
         import traceback
         traceback.print_exc()
